@@ -5,10 +5,12 @@ CONSTANTS
  Urls <- MCUrls1
  UserNames <- MCUserNames
  Paths <- MCPaths
- PageSizes <- MCPageSizes2
+ Passwords <- MCPasswords1
+ Spellings <- MCSpellings1
+ PageSizes <- MCPageSizes1
  MaxHist = 30
  EmitAt = 99
 VIEW View
-INVARIANTS PagingComplete
+INVARIANTS RefusedChangedNothing PagingComplete
 ACTION_CONSTRAINT EmitEdge
 CHECK_DEADLOCK FALSE
